@@ -528,8 +528,11 @@ def main(argv):
         "wall_s": round(wall, 2),
         "violations": len(violations),
     }
-    os.makedirs(os.path.join(ROOT, "evidence"), exist_ok=True)
-    with open(os.path.join(ROOT, "evidence", f"{prop}.json"), "w") as fh:
+    # evidence/ records runs against /repo itself; a run against a scratch checkout (VERIF_REPO, used to try
+    # seeded changes) writes to evidence-scratch/ (ignored by git) so that it can never be committed as evidence
+    evdir = "evidence" if os.path.realpath(os.environ.get("VERIF_REPO", "/repo")) == "/repo" else "evidence-scratch"
+    os.makedirs(os.path.join(ROOT, evdir), exist_ok=True)
+    with open(os.path.join(ROOT, evdir, f"{prop}.json"), "w") as fh:
         json.dump(ev, fh, indent=1, default=str)
     print(f"{prop} {tier}: {n_ok}/{n_obl - n_known_direct} obligations discharged ({n_known_direct} more are listed known findings), {len(violations)} violations, "
           f"{len(known_seen)} known findings, {len(undecided)} undecided, {wall:.1f}s")
